@@ -114,6 +114,8 @@ def evaluate__plus_operator(self: XPathToken, context: ta.ContextType = None) \
         -> ta.OneArithmeticOrEmpty:
     if len(self) == 1:
         arg: ta.NumericType = self.get_argument(context, cls=NumericProxy)
+        if isinstance(arg, decimal.Decimal):
+            return arg  # Python's unary plus rounds a decimal to the precision of the context
         return [] if arg is None else +arg
     else:
         op1: ta.ArithmeticType | None
@@ -142,6 +144,8 @@ def evaluate__minus_operator(self: XPathToken, context: ta.ContextType = None) \
         -> ta.OneArithmeticOrEmpty:
     if len(self) == 1:
         arg: ta.NumericType = self.get_argument(context, cls=NumericProxy)
+        if isinstance(arg, decimal.Decimal):
+            return arg.copy_negate()  # exact: Python's unary minus rounds to the context precision
         return [] if arg is None else -arg
     else:
         op1: ta.ArithmeticType | None
